@@ -1059,6 +1059,23 @@ mod net {
         Honest,
         Replay(usize), // index into the replies recorded for this client
         SwapNonce([u8; 32]),
+        /// the hop modifies the reply of the honest server (records and / or tag)
+        Tamper(&'static str, u64),
+        /// the hop forwards the read with a key prefix that matches nothing: the server's authentic
+        /// reply for the right nonce, with no records (observation only, see the driver)
+        SwapPrefix,
+    }
+
+    /// modifications of a reply by the hop; every one that changes the reply must be refused
+    const TAMPERS: &[&str] = &[
+        "drop-all-keep-tag", "drop-all-empty-tag", "drop-all-other-nonce-tag", "drop-last", "drop-first",
+        "flip-value-bit", "bump-version", "swap-keys", "reorder", "dup-record", "flip-tag-bit", "empty-tag",
+        "truncate-tag",
+    ];
+
+    type Wire = (Vec<(String, i64, Vec<u8>)>, Vec<u8>);
+    fn wire_of(r: &GetReply) -> Wire {
+        (r.kvs.iter().map(|kv| (kv.key.clone(), kv.version, kv.value.clone())).collect(), r.hmac.clone())
     }
 
     struct Inner {
@@ -1067,6 +1084,7 @@ mod net {
         mode: Mutex<Mode>,
         wire_nonces: Mutex<BTreeMap<Vec<u8>, Vec<Vec<u8>>>>, // per client id, as sent
         recorded: Mutex<BTreeMap<Vec<u8>, Vec<GetReply>>>,   // per client id, as seen on the wire
+        last: Mutex<Option<(Wire, Wire)>>, // (what the server authenticated, what the hop delivered) of the last read
     }
 
     #[derive(Clone)]
@@ -1105,7 +1123,11 @@ mod net {
                     return Ok(Response::new(reply));
                 }
                 Mode::SwapNonce(n) => n.to_vec(),
-                Mode::Honest => request.nonce.clone(),
+                Mode::Honest | Mode::Tamper(_, _) | Mode::SwapPrefix => request.nonce.clone(),
+            };
+            let prefix = match &mode {
+                Mode::SwapPrefix => "\u{10ffff}no-such-key".to_string(),
+                _ => request.key_prefix.clone(),
             };
             // --- the honest server (lssd: get_with_prefix, compute_shared_hmac over the request nonce)
             let secret = self.shared_secret(&cid)?;
@@ -1113,17 +1135,69 @@ mod net {
                 return Err(Status::invalid_argument("invalid auth token"));
             }
             let kvs: Vec<(String, Value)> = self.0.store.lock().unwrap().entry(cid.clone()).or_default().iter()
-                .filter(|(k, _)| k.starts_with(&request.key_prefix))
+                .filter(|(k, _)| k.starts_with(&prefix))
                 .map(|(k, v)| (k.clone(), v.clone()))
                 .collect();
             let hmac = lss_util::compute_shared_hmac(&secret, &forwarded_nonce, &kvs);
             let kvs_proto = kvs.into_iter().map(|(key, v)| KeyValue { key, version: v.version, value: v.value }).collect();
             let reply = GetReply { kvs: kvs_proto, hmac };
-            // --- the man in the middle records what passes
-            if let Mode::Honest = mode {
-                self.0.recorded.lock().unwrap().entry(cid).or_default().push(reply.clone());
+            // --- the man in the middle records what passes, or modifies it
+            let mut delivered = reply.clone();
+            match &mode {
+                Mode::Honest => self.0.recorded.lock().unwrap().entry(cid).or_default().push(reply.clone()),
+                Mode::Tamper(kind, r) => {
+                    let n = delivered.kvs.len();
+                    let i = if n > 0 { (*r % n as u64) as usize } else { 0 };
+                    match *kind {
+                        "drop-all-keep-tag" => delivered.kvs.clear(),
+                        "drop-all-empty-tag" => {
+                            delivered.kvs.clear();
+                            delivered.hmac.clear();
+                        }
+                        "drop-all-other-nonce-tag" => {
+                            // the server's own tag for "no records" under another nonce (what it answers to
+                            // a read of an unused prefix)
+                            let other: Vec<u8> = request.nonce.iter().map(|b| b ^ 0x5a).collect();
+                            delivered.kvs.clear();
+                            delivered.hmac = lss_util::compute_shared_hmac(&secret, &other, &[]);
+                        }
+                        "drop-last" => {
+                            delivered.kvs.pop();
+                        }
+                        "drop-first" if n > 0 => {
+                            delivered.kvs.remove(0);
+                        }
+                        "flip-value-bit" if n > 0 && !delivered.kvs[i].value.is_empty() => {
+                            let l = delivered.kvs[i].value.len();
+                            delivered.kvs[i].value[(*r >> 8) as usize % l] ^= 1 << (*r >> 40) % 8;
+                        }
+                        "bump-version" if n > 0 => delivered.kvs[i].version += 1,
+                        "swap-keys" if n > 1 => {
+                            let j = (i + 1) % n;
+                            let (a, b) = (delivered.kvs[i].key.clone(), delivered.kvs[j].key.clone());
+                            delivered.kvs[i].key = b;
+                            delivered.kvs[j].key = a;
+                        }
+                        "reorder" if n > 1 => delivered.kvs.rotate_left(1),
+                        "dup-record" if n > 0 => {
+                            let kv = delivered.kvs[i].clone();
+                            delivered.kvs.insert(i, kv);
+                        }
+                        "flip-tag-bit" if !delivered.hmac.is_empty() => {
+                            let l = delivered.hmac.len();
+                            delivered.hmac[(*r % l as u64) as usize] ^= 1 << (*r >> 40) % 8;
+                        }
+                        "empty-tag" => delivered.hmac.clear(),
+                        "truncate-tag" => {
+                            delivered.hmac.pop();
+                        }
+                        _ => {}
+                    }
+                }
+                _ => {}
             }
-            Ok(Response::new(reply))
+            *self.0.last.lock().unwrap() = Some((wire_of(&reply), wire_of(&delivered)));
+            Ok(Response::new(delivered))
         }
 
         async fn put(&self, request: Request<PutRequest>) -> Result<Response<PutReply>, Status> {
@@ -1241,15 +1315,16 @@ mod net {
         let seed = rng.bytes32();
         // client identity: PrivClient from a raw key; the signer paths as vlsd's make_external_persist
         // derives them (keys manager persistence key, ECDH with the server key)
-        let (client_id, mut reader) = match path {
+        let (client_id, shared_secret, mut reader) = match path {
             Path::Priv => {
                 let mut k = seed;
                 k[0] = 1;
                 let client_key = SecretKey::from_slice(&k).unwrap();
                 let auth = PrivAuth::new_for_client(&client_key, server_id);
                 let id = auth.client_id.serialize().to_vec();
+                let sh = auth.shared_secret.clone();
                 let client = PrivClient::new(uri, auth).await.expect("connect");
-                (id, Reader::Priv { client, hmac_secret: rng.bytes32() })
+                (id, sh, Reader::Priv { client, hmac_secret: rng.bytes32() })
             }
             _ => {
                 let stf = make_genesis_starting_time_factory(NETWORK);
@@ -1265,7 +1340,7 @@ mod net {
                     state: Arc::new(Mutex::new(Default::default())),
                     helper: ExternalPersistHelper::new(shared),
                 };
-                (cid.serialize().to_vec(), Reader::Helper { ep })
+                (cid.serialize().to_vec(), shared.to_vec(), Reader::Helper { ep })
             }
         };
         let keys: Vec<String> = (0..1 + rng.below(3)).map(|i| format!("channel/{:04}/{}", i, hex::encode(&seed[..2]))).collect();
@@ -1274,8 +1349,12 @@ mod net {
         let mut ops = vec![];
         let mut findings: Vec<serde_json::Value> = vec![];
         let nops = 6 + rng.below(7) as usize;
-        for step in 0..nops {
-            let choice = if step == 0 { 0 } else if step == 1 { 1 } else { rng.below(10) };
+        let read_empty_first = rng.chance(1, 3); // a genuine read of a store that was never written
+        // after the random part: one read per modification of the reply, then the prefix observation
+        for step in 0..nops + TAMPERS.len() + 1 {
+            let battery = step >= nops;
+            let choice = if battery { 99 } else if step == 0 { if read_empty_first { 1 } else { 0 } }
+                else if step == 1 { if read_empty_first { 0 } else { 1 } } else { rng.below(10) };
             if choice == 0 || choice == 5 || choice == 6 {
                 // the state advances: some keys get their next version
                 let mut kvs = vec![];
@@ -1302,6 +1381,8 @@ mod net {
             }
             let nrec = history.len();
             let mode = match choice {
+                99 if step - nops < TAMPERS.len() => Mode::Tamper(TAMPERS[step - nops], rng.next()),
+                99 => Mode::SwapPrefix,
                 1 | 2 | 3 => Mode::Honest,
                 4 | 7 | 8 if nrec > 0 => Mode::Replay(rng.below(nrec as u64) as usize),
                 9 => Mode::SwapNonce(rng.bytes32()),
@@ -1313,18 +1394,46 @@ mod net {
             let res = read(path, &mut reader, &mut given).await;
             let wire: Vec<Vec<u8>> = inner.wire_nonces.lock().unwrap().get(&client_id).map_or(vec![], |v| v[before..].to_vec());
             *inner.mode.lock().unwrap() = Mode::Honest;
+            let last = inner.last.lock().unwrap().take();
+            let mut mode = mode;
+            if let (Mode::Tamper(_, _), Some((auth, deliv))) = (&mode, &last) {
+                if auth == deliv {
+                    mode = Mode::Honest; // the modification did not apply to this reply (e.g. nothing to drop)
+                    if res.is_ok() || res.as_ref().err().map_or(false, |e| e.starts_with("refused")) {
+                        inner.recorded.lock().unwrap().entry(client_id.clone()).or_default().push(GetReply {
+                            kvs: deliv.0.iter().map(|(k, v, x)| KeyValue { key: k.clone(), version: *v, value: x.clone() }).collect(),
+                            hmac: deliv.1.clone(),
+                        });
+                    }
+                }
+            }
             let mname = match &mode {
                 Mode::Honest => "genuine".to_string(),
                 Mode::Replay(k) => format!("replay:{}", k),
                 Mode::SwapNonce(_) => "swap-nonce".to_string(),
+                Mode::Tamper(k, _) => format!("tamper:{}", k),
+                Mode::SwapPrefix => "prefix-swapped".to_string(),
             };
+            let j_wire = |w: &Wire| json!({"rs": w.0.iter().map(|(k, v, x)| json!([hex::encode(k.as_bytes()), (*v as u64).to_string(), hex::encode(x)])).collect::<Vec<_>>(), "tag": hex::encode(&w.1)});
             let outcome = match &res {
                 Ok(_) => "accepted".to_string(),
                 Err(e) => e.clone(),
             };
-            *stats.entry(format!("{:?}:{}:{}", path, mname.split(':').next().unwrap(), outcome.split(':').next().unwrap())).or_default() += 1;
+            let mstat = if mname.starts_with("tamper:drop-all") { "tamper-drop-all" } else { mname.split(':').next().unwrap() };
+            *stats.entry(format!("{:?}:{}:{}", path, mstat, outcome.split(':').next().unwrap())).or_default() += 1;
+            // the acceptance decision of the helper paths as a model case: accept iff the delivered tag is
+            // the tag of exactly the delivered list under the nonce this read sent
+            let coq = match (&last, wire.first(), path) {
+                (Some((_, deliv)), Some(n), Path::Direct) | (Some((_, deliv)), Some(n), Path::InitState) => {
+                    let rs: Vec<Rec> = deliv.0.iter().map(|(k, v, x)| (k.clone(), *v as u64, x.clone())).collect();
+                    Some(format!("CInit {} {} {} {}", coq_bytes(&shared_secret), coq_bytes(n), coq_rs(&rs), coq_bytes(&deliv.1)))
+                }
+                _ => None,
+            };
             ops.push(json!({"op": "read", "reply": mname, "wire_nonces": wire.iter().map(hex::encode).collect::<Vec<_>>(),
-                            "outcome": outcome, "returned": res.as_ref().ok().map(j_state)}));
+                            "outcome": outcome, "returned": res.as_ref().ok().map(j_state),
+                            "authenticated": last.as_ref().map(|l| j_wire(&l.0)), "delivered": last.as_ref().map(|l| j_wire(&l.1)),
+                            "coq": coq}));
             if wire.len() != 1 {
                 findings.push(json!({"kind": "request-count", "step": step, "requests": wire.len()}));
             }
@@ -1352,6 +1461,14 @@ mod net {
                         "returned": j_state(st), "current": j_state(&current), "rolled_back": *st != current,
                         "recorded_state": j_state(&history[*k])}));
                 }
+                (Mode::Tamper(kind, _), Ok(st)) => {
+                    let (auth, deliv) = last.clone().unwrap();
+                    findings.push(json!({"kind": "tampered-reply-accepted", "step": step, "tamper": kind,
+                        "authenticated_by_server": j_wire(&auth), "delivered_by_hop": j_wire(&deliv),
+                        "returned": j_state(st), "current": j_state(&current), "secret": hex::encode(&shared_secret),
+                        "nonce": wire.first().map(hex::encode)}));
+                }
+                (Mode::SwapPrefix, _) => {} // recorded in the statistics only
                 (Mode::SwapNonce(n), Ok(st)) => {
                     findings.push(json!({"kind": "reply-under-other-nonce-accepted", "step": step, "server_nonce": hex::encode(n), "returned": j_state(st)}));
                 }
@@ -1397,6 +1514,7 @@ mod net {
                 mode: Mutex::new(Mode::Honest),
                 wire_nonces: Mutex::new(BTreeMap::new()),
                 recorded: Mutex::new(BTreeMap::new()),
+                last: Mutex::new(None),
             });
             let listener = tokio::net::TcpListener::bind("127.0.0.1:0").await.expect("bind");
             let uri = format!("http://{}", listener.local_addr().unwrap());
